@@ -8,7 +8,9 @@ Decided:
          route's methods and continues without executing; trying a later route after execute() requires an
          HTTPException result with is_breaking false *and* add_exception(ret); the method test dominates
          slash handling and execute;
-  R06.c  sentinel priority: last recorded exception, else 405 built from allowed_methods, else 404;
+  R06.c  sentinel priority: last recorded exception, else 405 built from allowed_methods, else 404; recording order:
+         add_exception puts its argument behind the last element on every path that returns and does nothing else to
+         the list, and nobody else writes a dispatch state's list (so [-1] is the most recent error);
   R06.d  method normalisation: Route upper-cases and validates methods and adds HEAD for GET;
          match_method upper-cases the request method and admits everything when methods is falsy;
          update_methods unions;
@@ -263,10 +265,24 @@ def _sentinel_rules(rep, repo, app, route):
     if not ds:
         raise AnalysisError('handle_sentinel_condition: dispatch state parameter not found')
     ds = ds[0]
-    is_exc = lambda t: norm(t) == '%s.exceptions' % ds
-    is_am = lambda t: norm(t) == '%s.allowed_methods' % ds
+    # other names of the dispatch state: single-definition locals bound to the parameter (``state = _dispatch_state``)
+    from ..astutil import assigned_value
+    ds_names = {ds}
+    for n_ in set(x.id for x in walk_body(hs.node) if isinstance(x, ast.Name) and isinstance(x.ctx, ast.Store)):
+        av = assigned_value(hs.node, n_)
+        if len(av) == 1 and isinstance(av[0][0], ast.Assign) and av[0][2] is None and isinstance(av[0][1], ast.Name) and av[0][1].id == ds and \
+                n_ not in hs.params():
+            ds_names.add(n_)
+
+    def res(e):
+        """``e`` with single-definition locals followed and the dispatch state called by its parameter name"""
+        e = resolve_local(hs.node, e)
+        if isinstance(e, ast.Attribute) and isinstance(e.value, ast.Name) and e.value.id in ds_names and e.value.id != ds:
+            e = ast.copy_location(ast.Attribute(value=ast.copy_location(ast.Name(id=ds, ctx=ast.Load()), e.value), attr=e.attr, ctx=ast.Load()), e)
+        return e
+    is_exc = lambda t: norm(res(t)) == '%s.exceptions' % ds
+    is_am = lambda t: norm(res(t)) == '%s.allowed_methods' % ds
     kinds = {}
-    res = lambda e: resolve_local(hs.node, e)
     for r in returns_of(hs):
         v = r.value
         cs = conds(hs, r)
